@@ -11,7 +11,7 @@ RULE = ("same space as C04; oracle: an independent optimum - per group all thres
         "maximises overall (balanced) accuracy; the objective achieved by _pmf_predict must equal it within 1e-9 and be >= the "
         "best constant classifier; non-trivial = always; distinct = distinct group tuples")
 ASSUMPTIONS = ["reference envelope shares no code with the implementation; palette and size bounds as in C04"]
-CLASSES = ["score_ties", "all_scores_equal_in_group", "grid_size_1", "three_or_more_groups", "near_tie_scores"]
+CLASSES = ["score_ties", "all_scores_equal_in_group", "grid_size_1", "three_or_more_groups", "near_tie_scores", "explicit_predict_method"]
 # classes whose occurrence depends on implementation internals (reported, warned about when absent, never a hard vacuity error)
 SOFT_CLASSES = ["p_ignore_positive", "flip_used", "randomised_between_thresholds"]
 
